@@ -61,13 +61,15 @@ int Logger::operator()()
 {
    unsigned received(0);
 
-   while (!_stopping)
+   for (;;)
    {
 		LogElement *msg_ptr(0);
 
 #if (FIX8_MPMC_SYSTEM == FIX8_MPMC_FF)
 		if (!_msg_queue.try_pop(msg_ptr))
 		{
+			if (_stopping)	// queue drained
+				break;
 			hypersleep<h_microseconds>(200);
 			continue;
 		}
